@@ -36,6 +36,7 @@ type TxRec struct {
 	BlockTime time.Time
 	Tag       string
 	Msgs      []sdk.Msg // decoded from the wire bytes
+	Respelled int       // address fields that were sent in a non-canonical (upper-case) spelling
 	Signers   map[string]bool
 	TxBytes   []byte
 	Res       abci.ResponseDeliverTx
@@ -122,6 +123,7 @@ type Engine struct {
 	cur      *TraceBlock
 	Stats    map[string]*MsgStat // per message type URL
 	TxOK     int
+	Respelled, RespelledOK int // transactions carrying an upper-case address spelling (sent, accepted)
 	TxFail   int
 	Blocks   int
 	HasherID string
@@ -245,6 +247,7 @@ func (e *Engine) ExecBytes(bz []byte, tag string) *TxRec {
 	rec := &TxRec{Step: e.Step, Height: e.App.Header.Height, BlockTime: e.App.Header.Time, Tag: tag, TxBytes: bz, Pre: e.Cur, Signers: map[string]bool{}}
 	if dtx, err := e.App.TxCfg.TxDecoder()(bz); err == nil {
 		rec.Msgs = dtx.GetMsgs()
+		// signers first (from the spelling as sent), then canonical spellings for the monitors
 		for _, m := range rec.Msgs {
 			func() {
 				defer func() { recover() }() // GetSigners panics on malformed addresses
@@ -254,8 +257,15 @@ func (e *Engine) ExecBytes(bz []byte, tag string) *TxRec {
 			}()
 		}
 	}
+	if n := CanonAddrs(rec.Msgs); n > 0 {
+		rec.Respelled = n
+		e.Respelled++
+	}
 	rec.Res = e.App.Deliver(bz)
 	rec.OK = rec.Res.Code == 0
+	if rec.OK && rec.Respelled > 0 {
+		e.RespelledOK++
+	}
 	rec.Events = rec.Res.Events
 	if rec.OK {
 		var md sdk.TxMsgData
